@@ -16,7 +16,8 @@
      data.startswith(const)              Model/DocutilsEsc.starts
      XMLString(data).load()[0]           Model/Html2Stan.xml_load (expat + twisted's _ToStan, modelled by Spec/Xml.v and
                                          validated against expat by the harness); a parse failure raises SAXParseException
-     isinstance(x, Tag), x.tagName       on the stan value
+     isinstance(x, Tag), x.tagName       on the stan value; == between two str values is text equality
+     s.split() / SEP.join(list)          Model/DocutilsEsc.py_split (str.isspace table) / join, also composed
      s.replace(a, b) with one-character a           Model/Stan.replace1
      SEP.join(s.split())                            Model/DocutilsEsc.join / py_split (str.isspace table)
      all(p.isidentifier() for p in s.split(c))      Model/DeprecateText.isidentifier (XID tables) over split_on
@@ -48,6 +49,8 @@ Inductive iexpr : Type :=
 | EConcat (a b : iexpr)                      (* + , f-string, % and .format after expansion *)
 | EReplace1 (a : N) (b : text) (e : iexpr)   (* e.replace(chr a, b) *)
 | ESplitJoin (sep : text) (e : iexpr)        (* sep.join(e.split()) *)
+| ESplitWs (e : iexpr)                       (* e.split() : the list of white-space separated words *)
+| EJoin (sep : text) (e : iexpr)             (* sep.join(e) for a list e *)
 | ESplitOn (c : N) (e : iexpr)               (* e.split(chr c) *)
 | EAllIdent (e : iexpr)                      (* all(p.isidentifier() for p in e) *)
 | EIsStr (e : iexpr)                         (* isinstance(e, str) *)
@@ -56,7 +59,9 @@ Inductive iexpr : Type :=
 | EStartsWith (e : iexpr) (p : text)         (* e.startswith(p) *)
 | EXmlLoad (e : iexpr)                       (* XMLString(e).load()[0] *)
 | EIsTag (e : iexpr)                         (* isinstance(e, Tag) *)
-| ETagNameIs (e : iexpr) (n : text).         (* e.tagName == n *)
+| ETagNameIs (e : iexpr) (n : text)          (* e.tagName == n *)
+| ETagName (e : iexpr)                       (* e.tagName *)
+| EEqStr (a b : iexpr).                      (* a == b on two str (or two bytes) values *)
 
 Inductive istmt : Type :=
 | SSkip
@@ -124,6 +129,10 @@ Fixpoint eval (en : env) (e : iexpr) : eres :=
                                 end)
   | ESplitJoin sep x =>
     ebind (eval en x) (fun v => match v with VStr t => EVal (VStr (join sep (py_split t))) | _ => EBad end)
+  | ESplitWs x =>
+    ebind (eval en x) (fun v => match v with VStr t => EVal (VList (py_split t)) | _ => EBad end)
+  | EJoin sep x =>
+    ebind (eval en x) (fun v => match v with VList l => EVal (VStr (join sep l)) | _ => EBad end)
   | ESplitOn c x =>
     ebind (eval en x) (fun v => match v with VStr t => EVal (VList (split_on c t)) | _ => EBad end)
   | EAllIdent x =>
@@ -152,6 +161,14 @@ Fixpoint eval (en : env) (e : iexpr) : eres :=
                                 | VStan (STag n' _ _) => EVal (VBool (text_eq n' n))
                                 | _ => EBad
                                 end)
+  | ETagName x =>
+    ebind (eval en x) (fun v => match v with VStan (STag n' _ _) => EVal (VStr n') | _ => EBad end)
+  | EEqStr a b =>
+    ebind (eval en a) (fun x => ebind (eval en b) (fun y =>
+      match x, y with
+      | VStr s, VStr t | VBytes s, VBytes t => EVal (VBool (text_eq s t))
+      | _, _ => EBad
+      end))
   end.
 
 Inductive res : Type :=
